@@ -13,7 +13,7 @@ func init() {
 		Explanation: "Decides that the client-side verification path cannot be aborted by a hostile answer: (R1) each of the three proof verifiers (history membership, history incremental, hyper query) installs, before anything else, a deferred recover() that turns any panic below it into a rejection (named result set to false only); " +
 			"(R2) audit-path keys are parsed under a token-count guard; (R3) answers decoded from JSON are nil-tested before they are dereferenced or handed to converters that dereference them, decode errors are not discarded, and a decoded snapshot pointer is checked before it is returned; " +
 			"(R4) the verifier traversals terminate: their base case is an order test on the node height decided by a finite order model (an equality test would recurse forever on a forged path length), every recursive call descends to Left/Right of the current position; (R5) the balloon verifier consults the history verifier only under ActualVersion<=QueryVersion and non-nil parts.",
-		Added:       "Also (R1) the recover handler does not panic again; (R5) each pointer-typed part of the proof has its own dominating nil test; (R6) the client's request loops make progress on every way round. Third round: (R2) every character index of token parsing is guarded by a length test; (R3) the padding length of a key comes from the hasher in use.",
+		Added:       "Also (R1) the recover handler does not panic again; (R5) each pointer-typed part of the proof has its own dominating nil test; (R6) the client's request loops make progress on every way round. Third round: (R2) every character index of token parsing is guarded by a length test; (R3) the padding length of a key comes from the hasher in use. Fifth round: the nil test of a decoded answer is required also when decoding goes through a helper.",
 		Assumptions: []string{"Go's recover() catches run-time panics (index out of range, nil map) as well as explicit ones; stack exhaustion is not recoverable, hence R4"},
 		Declined:    "memory bounds on attacker-sized bodies; totality of the agents against malformed gossip (not a server answer).",
 	}, runC12)
